@@ -189,6 +189,30 @@ Definition spec_call_noobj (a : action) (args : list string) : string :=
   "(" +++ a_name a +++ " " +++
   join " " (map (fun xt => fst xt +++ " - " +++ snd (snd xt)) (combine args (a_params a))) +++ ")".
 
+(* ---------- inside the supported fragment: every literal Operator.ground() touches has a declared predicate and as many
+   arguments as declared (quantified bodies are not touched by ground()).  Outside it the allowed outcome is an exception
+   at grounding (C01: 'faithful or rejected by first use'; C20_ground_returns_iff / C20_ground_error_kinds on the model) ---------- *)
+Definition lit_wf (sd : sdomain) (p : string) (args : list string) : bool :=
+  match lookup p (sd_preds sd) with
+  | Some sg => Nat.eqb (List.length sg) (List.length args)
+  | None => false
+  end.
+Fixpoint form_wf (sd : sdomain) (f : form) : bool :=
+  match f with
+  | FAtom p args | FNotAtom p args => lit_wf sd p args
+  | FAnd l | FOr l => forallb (form_wf sd) l
+  | _ => true
+  end.
+Definition prims_wf (sd : sdomain) (ps : list prim) : bool :=
+  forallb (fun q => match q with PAdd p args | PDel p args => lit_wf sd p args | PNum _ _ _ _ => true end) ps.
+Definition action_wf (sd : sdomain) (a : action) : bool :=
+  form_wf sd (a_pre a) &&
+  forallb (fun e => match e with
+                    | EPrims ps => prims_wf sd ps
+                    | EWhen c ps => form_wf sd c && prims_wf sd ps
+                    | EForall _ _ _ _ => true
+                    end) (a_effs a).
+
 (* ---------- known finding classes, decided on the input ---------- *)
 Definition known_pre (a : action) (sg : env) : bool :=
   under_forall_touches sg false (a_pre a) || form_repeats sg (a_pre a).
@@ -211,9 +235,10 @@ Definition probe_verdicts (w : world) (p : gprobe) : list verdict :=
   let consts := match sd with Some d => sd_consts d | None => [] end in
   match g_obs p with
   | Raised =>
-      (* the property demands a report for every call: raising is a violation unless the model's domain has no such action *)
+      (* the property demands a report for every call of an action of the supported fragment: raising is a violation unless
+         there is no such action or one of its literals does not fit its declaration *)
       let agree := match mr with Err _ => true | Ok _ => false end in
-      let ok := match sa with None => true | Some _ => false end in
+      let ok := match sd, sa with Some d, Some a => negb (action_wf d a) | _, _ => true end in
       [ {| v_agree := agree; v_ok := ok; v_known := false |};
         {| v_agree := agree; v_ok := ok; v_known := false |};
         {| v_agree := agree; v_ok := ok; v_known := false |} ]
@@ -273,7 +298,8 @@ Definition explain (c : gcase) :=
           match spec_domain w with
           | Some d => match find_action d (g_action p) with
                       | Some a => let sg := bind_args a (g_args p) in
-                                  Some (form_lits (sd_consts d) (a_params a) sg (a_pre a), form_cmps sg (a_pre a),
+                                  Some (form_lits_min (sd_consts d) (a_params a) sg (a_pre a),
+                                        form_lits (sd_consts d) (a_params a) sg (a_pre a), form_cmps sg (a_pre a),
                                         form_eqs sg (a_pre a), spec_call d a (g_args p) (w_objs w))
                       | None => None end
           | None => None end))
